@@ -324,6 +324,13 @@ mod mmv_pure {
                 String::new()
             }
             Op::ArmFault { .. } => String::new(),
+            Op::Gets { k, n } => {
+                let mut last = None;
+                for _ in 0..n {
+                    last = cut.get(k);
+                }
+                format!("{:?}", last)
+            }
         };
         // the driver's own sync() belongs to the base ops only: an extra observation must not
         // bring any maintenance with it
